@@ -45,6 +45,16 @@ def approx_obj(eng, tag, grid=None):
     return o, grid, k, vals
 
 
+def fields_of(x):
+    """keyword view of a resulting landscape however it was produced: through the constructor (summary object) or as a copy of an
+    operand with attributes replaced; None if it is no landscape object at all.  How the object is built is not part of C09."""
+    if getattr(x, "built", None) is not None:
+        return x.built.kw
+    if isinstance(x, Obj):
+        return x.fields
+    return None
+
+
 def padded(vals, k, i, j):
     return ite(lift(i) < k, cur_under(lift(i) < k, lambda: vals.get(i, j)), 0.0)
 
@@ -80,10 +90,9 @@ def add_contract(same_grid):
     def ensures(a, res):
         e, g = a.eng, a.g
         out = []
-        if getattr(res, "built", None) is None:
-            return [("returns_new_landscape", False, "P")]
-        res = res.built
-        kw = res.kw
+        kw = fields_of(res)
+        if kw is None:
+            return [("returns_a_landscape", False, "S")]
         out += grid_clauses(g["A"], kw)
         V = kw.get("values")
         if not isinstance(V, Arr) or V.ndim != 2:
@@ -122,10 +131,9 @@ def unary_contract(which):
 
     def ensures(a, res):
         e, g = a.eng, a.g
-        if getattr(res, "built", None) is None:
-            return [("returns_new_landscape", False, "P")]
-        res = res.built
-        kw = res.kw
+        kw = fields_of(res)
+        if kw is None:
+            return [("returns_a_landscape", False, "S")]
         out = grid_clauses(g["A"], kw)
         V = kw.get("values")
         if not isinstance(V, Arr) or V.ndim != 2:
@@ -148,16 +156,16 @@ def sub_contract():
 
     def ensures(a, res):
         e, g = a.eng, a.g
-        if getattr(res, "built", None) is None:
-            return [("returns_new_landscape", False, "P")]
-        res = res.built
-        V = res.kw.get("values")
+        kw = fields_of(res)
+        if kw is None:
+            return [("returns_a_landscape", False, "S")]
+        V = kw.get("values")
         if not isinstance(V, Arr) or V.ndim != 2:
             return [("values_is_matrix", False, "P")]
         kmax = ite(lift(g["ka"]) >= g["kb"], g["ka"], g["kb"])
         i = e.fresh_int("qi", lo=0, hi=kmax)
         j = e.fresh_int("qj", lo=0, hi=g["ns"])
-        return grid_clauses(g["A"], res.kw) + [
+        return grid_clauses(g["A"], kw) + [
             ("depth_is_max_of_operand_depths", lift(V.shape[0]) == kmax, "P"),
             ("values_are_pointwise_difference_with_zero_padding", lift(V.get(i, j)) == padded(g["va"], g["ka"], i, j) - padded(g["vb"], g["kb"], i, j), "P")]
     return Contract(AMOD, "PersLandscapeApprox.__sub__", make_args, ensures=ensures, definedness="P")
@@ -220,10 +228,9 @@ def exact_map_contract(which):
 
     def ensures(a, res):
         e, g = a.eng, a.g
-        if getattr(res, "built", None) is None:
-            return [("returns_new_landscape", False, "P")]
-        res = res.built
-        kw = res.kw
+        kw = fields_of(res)
+        if kw is None:
+            return [("returns_a_landscape", False, "S")]
         cp = kw.get("critical_pairs")
         out = [("keeps_degree", kw.get("hom_deg") is g["o"].fields["hom_deg"], "P"),
                ("operand_untouched", g["o"].fields["critical_pairs"] is g["cps"], "P")]
